@@ -147,5 +147,34 @@ def prop_rmax(case, ctx):
     ctx.nontrivial(known > 0 and unknown > 0 and case["episodes"] >= 2)
 
 
-PROPS = [Prop("rmax", lambda tier: cases(tier), prop_rmax, quick=5000, thorough=100000,
+@st.composite
+def reuse_cases(draw, tier="quick"):
+    kw = dict(min_states=2, max_states=5, uniform_actions=True, gammas=[0.5, 0.8], absorbing_kinds=("n", "n", "n", "abs"),
+              allow_explicit=False, schemes=("int",))
+    return {"a": draw(mdp_specs("dproper", **kw)), "b": draw(mdp_specs("dproper", **kw)), "m": draw(st.integers(1, 3)),
+            "episodes": draw(st.integers(1, 5)), "seed": draw(st.integers(0, 10 ** 6))}
+
+
+def prop_reuse(case, ctx):
+    import msdm.algorithms.rmax as rm
+    from vpm.checks.reuse import check_reuse
+    ma, _ = build_mdp(case["a"])
+    mb, _ = build_mdp(case["b"])
+
+    def run(_unused, mdp):
+        # rmax is a constructor argument that must equal the problem's maximal reward: one learner per problem pair
+        return None
+    # R-MAX asserts rmax == reward_matrix.max(), so an object can only be reused on problems with the same maximum
+    ra, rb = float(np.max(ma.reward_matrix)), float(np.max(mb.reward_matrix))
+    if ra != rb:
+        from vpm.core import Rejected
+        raise Rejected("different rmax")
+    make = lambda: rm.RMAX(episodes=case["episodes"], rmax=rb, num_transition_samples=case["m"], seed=case["seed"])
+    check_reuse(ctx, "C17.reuse", make, lambda l, m: l.train_on(m), lambda r, m: {"q": r.q_values}, ma, mb)
+    ctx.nontrivial(case["a"] != case["b"])
+
+
+PROPS = [Prop("reuse", lambda tier: reuse_cases(tier), prop_reuse, quick=400, thorough=24000,
+              doc="an RMAX object reused on a second MDP (same rmax) gives the same result as a fresh one"),
+         Prop("rmax", lambda tier: cases(tier), prop_rmax, quick=5000, thorough=300000,
               doc="recorded history valid; optimism for under-sampled pairs; empirical Bellman equation; greedy policy")]
